@@ -18,6 +18,29 @@ def roundDiv (a : Int) (p : Nat) : Int := (2 * a + p) / (2 * p)
 /-- numerator of the reported delay over the denominator `p` -/
 def delayNum (e : Eng) (p q : Nat) : Int := (e.sin : Int) * q - e.sout * p
 
+/-- numerator of what `soxr_delay()` reports: the guard of soxr.c first (`(p && !p->error && p->resamplers)? resampler_delay : 0`:
+    an object that carries an error reports 0), then the engine's value -/
+def apiDelayNum (a : Api) (p q : Nat) : Int := if a.error then 0 else delayNum a.eng p q
+
+/-- **After an error nothing more is owed, and `soxr_delay` says so.**  Once an error is recorded (the input function reported
+    failure, a NULL buffer was refused, …) every later `soxr_output`, with any request and any input-function script, delivers
+    nothing, asks for nothing and leaves the object as it is — and the reported delay is 0: `delivered + round(delay) = the total
+    finally delivered` also on that path.  (Round 7 of the seeded changes, `C15-delay-guard-drops-error-test`: the guard lost its
+    `!p->error` and the streaming value kept being reported for output that will never come.) -/
+theorem delay_zero_after_error (num : Num) (fuel : Nat) (a : Api) (p q len0 : Nat) (script : List Supply) (herr : a.error = true) :
+    apiDelayNum a p q = 0 ∧ a.output num fuel len0 script = some (a, 0, script, []) := by
+  constructor
+  · unfold apiDelayNum; simp [herr]
+  · unfold Api.output; simp [herr]
+
+/-- without an error the guard is transparent: every other theorem of this file speaks about what `soxr_delay` returns -/
+theorem delay_guard_transparent (a : Api) (p q : Nat) (herr : a.error = false) : apiDelayNum a p q = delayNum a.eng p q := by
+  unfold apiDelayNum; simp [herr]
+
+/-- non-vacuity: an object that has accepted 1000 frames at 2:1 and then recorded an error reports 0, not 500 -/
+example : apiDelayNum { eng := { stages := [], sin := 1000 }, error := true } 2 1 = 0 ∧
+    delayNum ({ eng := { stages := [], sin := 1000 }, error := true } : Api).eng 2 1 = 1000 := by decide
+
 theorem roundDiv_add_mul (a s : Int) (p : Nat) (hp : 0 < p) : roundDiv (a + s * p) p = roundDiv a p + s := by
   unfold roundDiv
   have h2p : (2 * (p : Int)) ≠ 0 := by omega
